@@ -28,9 +28,9 @@
 import re
 import ttconv.style_properties as styles
 
-_HEX_COLOR_RE = re.compile(r"#([0-9a-fA-F]{2})([0-9a-fA-F]{2})([0-9a-fA-F]{2})([0-9a-fA-F]{2})?")
-_DEC_COLOR_RE = re.compile(r"rgb\(\s*(\d+)\s*,\s*(\d+)\s*,\s*(\d+)\s*\)")
-_DEC_COLORA_RE = re.compile(r"rgba\(\s*(\d+),\s*(\d+)\s*,\s*(\d+)\s*,\s*(\d+)\s*\)")
+_HEX_COLOR_RE = re.compile(r"#([0-9a-fA-F]{2})([0-9a-fA-F]{2})([0-9a-fA-F]{2})([0-9a-fA-F]{2})?$")
+_DEC_COLOR_RE = re.compile(r"rgb\(\s*([0-9]+)\s*,\s*([0-9]+)\s*,\s*([0-9]+)\s*\)$")
+_DEC_COLORA_RE = re.compile(r"rgba\(\s*([0-9]+),\s*([0-9]+)\s*,\s*([0-9]+)\s*,\s*([0-9]+)\s*\)$")
 
 def parse_color(attr_value: str) -> styles.ColorType:
   '''Parses the TTML \\<color\\> value contained in `attr_value`
@@ -57,7 +57,7 @@ def parse_color(attr_value: str) -> styles.ColorType:
 
   m = _DEC_COLOR_RE.match(attr_value)
 
-  if m:
+  if m and all(int(c) <= 255 for c in m.groups()):
 
     return styles.ColorType(
       (
@@ -70,7 +70,7 @@ def parse_color(attr_value: str) -> styles.ColorType:
 
   m = _DEC_COLORA_RE.match(attr_value)
 
-  if m:
+  if m and all(int(c) <= 255 for c in m.groups()):
 
     return styles.ColorType(
       (
